@@ -28,6 +28,9 @@ fn grid_states(em: &mut Em, rng: &mut Rng, cols: u32, lines: u32, fills: &[u8], 
         for y in 0..lines { for x in 0..=cols {
             if !rng.chance(keep_num, keep_den) { continue; }
             let mut sp = base_spec(cols, lines); sp.margins = m; sp.decom = decom; sp.fill = fill; sp.cur = (x, y); sp.sgr = rng.below(10) as usize;
+            // modes the property does not mention are varied everywhere: they must not matter
+            sp.awm_off = rng.chance(1, 3); sp.irm = rng.chance(1, 4); sp.lnm = rng.chance(1, 4); sp.scnm = rng.chance(1, 6); sp.tcem_off = rng.chance(1, 8);
+            sp.charset = if rng.chance(1, 5) { 1 + rng.below(3) as u8 } else { 0 }; sp.saves = if rng.chance(1, 6) { 1 } else { 0 }; sp.materialise = rng.chance(1, 6);
             tweak(&mut sp, rng);
             match build(&sp, rng) { Some(s) => v.push(s), None => em.bump("builder_panics") }
         } }
@@ -255,6 +258,14 @@ fn c20(em: &mut Em, rng: &mut Rng, _thorough: bool) {
                 em.probe_via_parser(&pre, &Op::Draw(ch.to_string()), &ch.to_string(), utf8); }
             else { em.next_id(); em.fail("C01", format!("panic feeding {:?}", text)); } } }
     } } }
+    for cs in 0u8..4 { for fill in [0u8, 2] { let sp = Spec { cols: 3, lines: 2, charset: cs, fill, clear_dirty: true, ..Default::default() };
+        if let Some(mut s) = build(&sp, rng) { for so in [false, true] { if so { s.shift_out() } else { s.shift_in() }
+            for t in ["\u{e}", "\u{f}", "\u{1b}(0", "\u{1b})U", "\u{1b}(B", "\u{1b})V", "\u{e}\u{f}", "\u{1b}(Vq"] {
+                // UTF-8 mode: no event at all (a trailing printable is drawn through the unchanged charset state)
+                let expect = if t.ends_with('q') { Op::Draw("q".into()) } else { Op::Bell };
+                em.probe_via_parser(&s, &expect, t, true); }
+            em.probe_via_parser(&s, &Op::ShiftOut, "\u{e}", false); em.probe_via_parser(&s, &Op::ShiftIn, "\u{f}", false);
+            em.probe_via_parser(&s, &Op::DefCharset("0".into(), "(".into()), "\u{1b}(0", false); em.probe_via_parser(&s, &Op::DefCharset("U".into(), ")".into()), "\u{1b})U", false); } } } }
     for code in ["A", "1", "", "BB", "b", "K", "\u{1b}"] { for slot in ["(", ")", "*", "+", ""] { let s = Screen::new(2, 1); em.probe(&s, &Op::DefCharset(code.into(), slot.into())); } }
     em.init_check(2, 1);
 }
@@ -284,7 +295,7 @@ fn c09(em: &mut Em, rng: &mut Rng, thorough: bool) {
 
 pub fn gen_stream(rng: &mut Rng, len: usize) -> String {
     let frag: &[&str] = &["\u{1b}[", "\u{9b}", "\u{1b}]", "\u{9d}", "\u{1b}", "0", "1", "2", "5", "9", "12", ";", "?", "$", " ", ">", "#", "%", "(", ")", "8", "7", "c", "D", "E", "M", "H",
-        "A", "B", "C", "G", "J", "K", "L", "P", "X", "@", "d", "f", "g", "h", "l", "m", "r", "a", "e", "\u{7}", "\u{8}", "\t", "\n", "\u{b}", "\u{c}", "\r", "\u{e}", "\u{f}", "\u{18}", "\u{1a}", "\u{9c}", "\\", "R", "x", "y", "z", "\u{3042}", "\u{301}", "\0", "\u{7f}", "0;t\u{7}", "2;x\u{1b}\\", "38;5;196m", "?6h", "?3h", "?5h", "4h", "20h", "?7l", "1;3r", "2;2H"];
+        "A", "B", "C", "G", "J", "K", "L", "P", "X", "@", "d", "f", "g", "h", "l", "m", "r", "a", "e", "\u{7}", "\u{8}", "\t", "\n", "\u{b}", "\u{c}", "\r", "\u{e}", "\u{f}", "\u{18}", "\u{1a}", "\u{9c}", "\\", "R", "x", "y", "z", "\u{3042}", "\u{301}", "\0", "\u{7f}", "0;t\u{7}", "2;x\u{1b}\\", "38;5;196m", "\r\n", "\u{1b}\r\nc", "\u{1b}]2;ab\r\ncd\u{7}", "1;2\u{18}", "?7$p", "3;4\u{1a}", "?1;2\u{18}", "\u{1b}(\r", "\u{1b}#\n", "?6h", "?3h", "?5h", "4h", "20h", "?7l", "1;3r", "2;2H"];
     let mut s = String::new(); for _ in 0..len { s.push_str(*rng.pick(frag)); } s
 }
 fn histories(em: &mut Em, rng: &mut Rng, n: usize, geos: &[(u32, u32)]) {
@@ -295,7 +306,7 @@ fn histories(em: &mut Em, rng: &mut Rng, n: usize, geos: &[(u32, u32)]) {
         #[derive(Clone)] enum Seg { Bytes(Vec<u8>), Api(Op), Select(String), Clear }
         let mut segs: Vec<Seg> = Vec::new();
         let shadow = Screen::new(c, l);
-        for _ in 0..nseg { match rng.below(10) { 0..=5 => { let tl = 1 + rng.below(10) as usize; let t = gen_stream(rng, tl); let mut b = t.into_bytes(); if rng.chance(1, 5) { let k = rng.below(b.len() as u64 + 1) as usize; b.insert(k, *rng.pick(&[0xffu8, 0xc3, 0xe3, 0x80, 0xf0, 0xed])); }
+        for _ in 0..nseg { match rng.below(10) { 0..=5 => { let tl = 1 + rng.below(10) as usize; let t = if rng.chance(1, 2) { gen_stream(rng, tl) } else { gen_token_stream(rng, 1 + tl / 2) }; let mut b = t.into_bytes(); if rng.chance(1, 5) { let k = rng.below(b.len() as u64 + 1) as usize; b.insert(k, *rng.pick(&[0xffu8, 0xc3, 0xe3, 0x80, 0xf0, 0xed])); }
                     // random chunking of the same bytes
                     let mut i = 0; while i < b.len() { let k = 1 + rng.below(6) as usize; let e = (i + k).min(b.len()); segs.push(Seg::Bytes(b[i..e].to_vec())); i = e; } }
                 6 | 7 => { let o = gen_op(rng, &shadow); segs.push(Seg::Api(o)); }
@@ -348,6 +359,8 @@ fn c12(em: &mut Em, rng: &mut Rng, thorough: bool) {
     // lists, repeated set/set and reset/reset, interleavings
     for _ in 0..(if thorough { 3000 } else { 300 }) { let s = rng.pick(&sts);
         walk(em, rng, s, 6, &mut |r, cur| match r.below(10) { 0..=2 => { let (m, p) = gen_modes(r); Op::Sm(m, p) } 3..=5 => { let (m, p) = gen_modes(r); Op::Rm(m, p) } 6 => Op::Save, 7 => Op::Restore, 8 => Op::Draw(gen_text(r)), _ => gen_op(r, cur) }); }
+    let g12: Vec<(u32, u32)> = vec![(5, 3), (10, 4), (3, 2)];
+    histories(em, rng, if thorough { 3000 } else { 400 }, &g12);
     for s in sts.iter().take(3) { for (fin, sm) in [('h', true), ('l', false)] { for private in [false, true] { for n in [3u32, 4, 5, 6, 7, 20, 25, 96, 160, 192, 224, 800, 1, 2] {
         let t = format!("{}{}", if private { "?" } else { "" }, n); let o = if sm { Op::Sm(vec![n], private) } else { Op::Rm(vec![n], private) }; em.probe_via_parser(s, &o, &csi(&t, fin), true); } } } }
 }
@@ -440,6 +453,22 @@ fn c19(em: &mut Em, rng: &mut Rng, thorough: bool) {
             if snapshot(&exp) != snapshot(&post) { em.fail("C19", format!("OSC {:?}: title={:?} icon={:?} (wanted payload {:?}); grid/cursor equal to sentinel-only: {}", text, post.title, post.icon_name, payload, { let mut e2 = fork(&post); e2.title = exp.title.clone(); e2.icon_name = exp.icon_name.clone(); snapshot(&e2) == snapshot(&exp) })); }
             let _ = before; } }
     }
+    // the same through ByteParser: every byte offset of the UTF-8 encoding is a possible chunk boundary
+    for k in 0..(if thorough { 6000 } else { 600 }) {
+        if !em.next_id() { continue; }
+        let len = 1 + rng.below(6) as usize; let payload: String = (0..len).map(|_| *rng.pick(&["a", "\u{e9}", "\u{3042}", ";", "\u{1f600}", "\\", " ", "\u{301}"])).collect();
+        let code = *rng.pick(&['0', '1', '2']); let term = *rng.pick(&["\u{7}", "\u{1b}\\", "\u{9c}"]);
+        let text = format!("\u{1b}]{};{}{}", code, payload, term); let bytes = text.clone().into_bytes();
+        em.arm(format!("OSC bytes {:02x?} under byte chunkings", bytes));
+        for cut in 0..=bytes.len() { if k % 4 != 0 && cut % 2 == 1 { continue; }
+            let chunks: Vec<Vec<u8>> = if cut == bytes.len() { bytes.iter().map(|b| vec![*b]).collect() } else { vec![bytes[..cut].to_vec(), bytes[cut..].to_vec()] };
+            let r = safe(move || { let m = Arc::new(Mutex::new(Screen::new(6, 2))); { let mut bp = ByteParser::new(m.clone()); for c in chunks.iter() { bp.feed(c); } } let mut g = m.lock().unwrap(); (g.title.clone(), g.icon_name.clone(), g.display(), g.cursor.x) });
+            em.bump("osc_byte_cases");
+            match r { None => em.fail("C01", format!("panic on OSC bytes {:02x?} cut {}", bytes, cut)), Some((t, i, d, x)) => {
+                let wt = if code != '1' { payload.clone() } else { String::new() }; let wi = if code != '2' { payload.clone() } else { String::new() };
+                if t != wt || i != wi || x != 0 || d.iter().any(|l| l.trim() != "") { em.fail("C19", format!("OSC bytes {:02x?} cut at {}: title={:?} icon={:?} cursor.x={} rows={:?} (payload {:?})", bytes, cut, t, i, x, d, payload)); break; } } }
+        }
+    }
     // event-level correspondence with the recogniser model on the same kind of input
     events(em, rng, if thorough { 6000 } else { 600 }, &mut |r| { let len = r.below(6) as usize; let p: String = (0..len).map(|_| *r.pick(&alpha)).collect(); format!("{}{}{}{}{}", r.pick(&["\u{1b}]", "\u{9d}"]), r.pick(&["0", "1", "2", "7", "R", "P", "x"]), r.pick(&[";", "", "x"]), p, r.pick(&["\u{7}", "\u{9c}", "\u{1b}\\", ""])) + *r.pick(&["", "Q", "abcdefgh"]) });
 }
@@ -493,6 +522,8 @@ fn c03(em: &mut Em, rng: &mut Rng, thorough: bool) {
     events_opt(em, rng, &mut |_r| it.next());
     // random long strings over sequence fragments, digit runs longer than any machine integer
     events(em, rng, if thorough { 60000 } else { 6000 }, &mut |r| { let n = 1 + r.below(14) as usize; gen_stream(r, n) });
+    // token-structured streams: mostly valid sequences, aborted (CAN/SUB), skipped ($), truncated ones in between
+    events(em, rng, if thorough { 200000 } else { 20000 }, &mut |r| { let n = 1 + r.below(6) as usize; gen_token_stream(r, n) });
     events(em, rng, if thorough { 4000 } else { 600 }, &mut |r| { let n = 1 + r.below(40); let d: String = (0..n).map(|_| char::from_u32(48 + r.below(10) as u32).unwrap()).collect(); let d2: String = (0..r.below(25)).map(|_| char::from_u32(48 + r.below(10) as u32).unwrap()).collect();
         format!("{}{}{};{}{}", r.pick(&["\u{1b}[", "\u{9b}"]), r.pick(&["", "?"]), d, d2, r.pick(&["H", "m", "A", "r", "h", "z", "\u{18}"])) });
     // every final byte 0x20..0x7e (and some non-ASCII) x 0..3 parameters x private flag: the dispatch tables
@@ -512,7 +543,7 @@ fn feed_bytes_rec(chunks: &[Vec<u8>], sel: &[(usize, &str)]) -> Option<Vec<Op>> 
 }
 fn text_of(ops: &[Op]) -> Option<String> { let mut t = String::new(); for o in ops { match o { Op::Draw(x) => t.push_str(x), _ => return None } } Some(t) }
 fn c11(em: &mut Em, rng: &mut Rng, thorough: bool) {
-    let reps: Vec<u8> = vec![0x00, 0x41, 0x7f, 0x80, 0x8f, 0x90, 0x9f, 0xa0, 0xbb, 0xbf, 0xc0, 0xc1, 0xc2, 0xdf, 0xe0, 0xe1, 0xec, 0xed, 0xee, 0xef, 0xf0, 0xf1, 0xf3, 0xf4, 0xf5, 0xff];
+    let reps: Vec<u8> = vec![0x00, 0x41, 0x7f, 0x80, 0x8f, 0x90, 0x9f, 0xa0, 0xbb, 0xbf, 0xc0, 0xc1, 0xc2, 0xdf, 0xe0, 0xe1, 0xec, 0xed, 0xee, 0xef, 0xf0, 0xf1, 0xf3, 0xf4, 0xf5, 0xfe, 0xff];
     let maxlen = if thorough { 4 } else { 3 };
     let mut cases: Vec<Vec<u8>> = Vec::new();
     for len in 1..=maxlen { let mut idx = vec![0usize; len]; 'outer: loop { cases.push(idx.iter().map(|&i| reps[i]).collect()); let mut p = len; loop { if p == 0 { break 'outer; } p -= 1; idx[p] += 1; if idx[p] < reps.len() { break; } idx[p] = 0; } } }
@@ -573,7 +604,7 @@ fn c02(em: &mut Em, rng: &mut Rng, thorough: bool) {
     for _ in 0..n {
         if !em.next_id() { continue; }
         let (c, l) = *rng.pick(geos); let utf8 = rng.chance(2, 3);
-        let tl = 2 + rng.below(16) as usize; let text = gen_stream(rng, tl); let cs: Vec<char> = text.chars().collect();
+        let tl = 2 + rng.below(16) as usize; let text = if rng.chance(1, 2) { gen_stream(rng, tl) } else { gen_token_stream(rng, 1 + tl / 3) }; let cs: Vec<char> = text.chars().collect();
         em.arm(format!("{}x{} utf8={} stream {:?} under chunkings", c, l, utf8, text));
         let whole = run_chars(c, l, utf8, &[text.clone()]);
         em.bump("streams");
@@ -591,6 +622,21 @@ fn c02(em: &mut Em, rng: &mut Rng, thorough: bool) {
         let one: Vec<&[u8]> = bytes.chunks(1).collect();
         if run_bytes(c, l, utf8, &one) != bwhole { em.fail("C02", format!("{}x{} utf8={} bytes {:02x?} fed byte-at-a-time differs", c, l, utf8, bytes)); }
         if em.samples.len() < 12 && em.id % 41 == 0 { em.sample(format!("{}x{} utf8={} stream {:?}: {} char cuts, {} byte cuts", c, l, utf8, text, cs.len() + 1, bytes.len() + 1)); }
+    }
+    // exhaustive: every string over one representative per class up to length 4, every 2-way split (3x2 screen)
+    {
+        let reps: Vec<char> = "\u{1b}\r\n\u{7}\u{18}[]0;?$#(cH\\x\u{9c}".chars().collect();
+        let maxlen = if thorough { 5 } else { 4 };
+        let mut count = 0u64;
+        for len in 2..=maxlen { all_strings(&reps, len, &mut |t: String| {
+            if !thorough && len == 4 && (count % 3 != (rng.0 % 3)) { count += 1; return; }
+            count += 1; em.id += 1;
+            let cs: Vec<char> = t.chars().collect();
+            em.arm(format!("3x2 chars {:?} under all 2-way splits", t));
+            let whole = run_chars(3, 2, true, &[t.clone()]);
+            for cut in 1..cs.len() { let a: String = cs[..cut].iter().collect(); let b: String = cs[cut..].iter().collect();
+                if run_chars(3, 2, true, &[a, b]) != whole { em.fail("C02", format!("3x2 chars {:?} cut at {}: state differs from single feed", t, cut)); break; } }
+            em.bump("exhaustive_short_streams"); }); }
     }
     // captured sessions: byte-at-a-time makes every offset a call boundary in one run; plus random k-way splits
     let dir = std::path::Path::new("/repo/assets/captured");
@@ -647,6 +693,7 @@ fn c01(em: &mut Em, rng: &mut Rng, thorough: bool) {
     }
     // (c) character streams through Parser (all C0/C1 controls), recorder histories double as correspondence
     events(em, rng, if thorough { 20000 } else { 2000 }, &mut |r| { let n = 1 + r.below(10) as usize; (0..n).map(|_| match r.below(4) { 0 => char::from_u32(r.below(0xa0) as u32).unwrap(), 1 => *r.pick(&['\u{1b}', '[', ']', ';', '?', '0', '9', 'm', 'H', '\u{9b}', '\u{9d}', '\u{9c}', '\\', '$', 'P', 'R']), 2 => *r.pick(&['\u{3042}', '\u{301}', '\u{feff}', '\u{10ffff}', '\u{d7ff}', '\u{e000}', '\u{fffd}']), _ => char::from_u32(32 + r.below(95) as u32).unwrap() }).collect() });
+    events(em, rng, if thorough { 20000 } else { 2000 }, &mut |r| { let n = 1 + r.below(6) as usize; gen_token_stream(r, n) });
     // (d) local probes: every operation with boundary arguments from built states (panic = failing input; model agreement on the way)
     let g2: Vec<(u32, u32)> = SMALL.iter().chain(MED.iter()).cloned().collect();
     for _ in 0..(if thorough { 1500 } else { 150 }) { let (c, l) = *rng.pick(&g2); let sp = random_spec(rng, c, l); if let Some(s) = build(&sp, rng) { walk(em, rng, &s, 10, &mut |r, cur| gen_op(r, cur)); em.display_probe(&s); } else { em.fail("C01", format!("panic while building a state from {:?}", sp)); } }
